@@ -62,11 +62,15 @@ const (
 	// W = host levels that raise the nested failure in another form (without recursion), Wr = the same with rec0
 	clW
 	clWr
+	// E = every letter without recursion / atomics that exists (K, N, W, X, S), Er = recursion through a direct and a
+	// host-nested call: the alphabet of the host-call environments (envModes)
+	clE
+	clEr
 	nClasses
 	nBaseClasses = clVn
 )
 
-var className = [nClasses]string{"K", "r0", "N", "R", "Vn", "Vr", "Vp", "T", "O", "S", "F", "X", "P", "W", "Wr"}
+var className = [nClasses]string{"K", "r0", "N", "R", "Vn", "Vr", "Vp", "T", "O", "S", "F", "X", "P", "W", "Wr", "E", "Er"}
 
 // Context variants: every step of a word is called with its own cancellable context ("cancel") or its own
 // context with a generous deadline ("deadline"), which the harness cancels after the step has returned; or
@@ -153,13 +157,17 @@ func init() {
 		}
 	}
 	classes[clP] = []letter{{ShDirectA, KOk}, {ShDirectB, KOk}, {ShViaB, KOk}, {ShHost1P, KOk}}
+	for _, c := range []int{clK, clN, clW, clX, clS} {
+		classes[clE] = append(classes[clE], classes[c]...)
+	}
+	classes[clEr] = []letter{{ShDirectA, KRec0}, {ShHost1P, KRec0}}
 	classes[clF] = []letter{{ShLookup, KOk}, {ShCloseN, KOk}, {ShDirectA, KOk}, {ShDirectB, KOk}, {ShViaB, KOk}}
 }
 
 // ---------------------------------------------------------------- word space (indexable, no materialisation)
 
 type section struct {
-	ctxMode string // "" = default world; otherwise the context variant (and the close-on-context-done runtimes)
+	ctxMode string // "" = default world; a context variant (ctxModes: close-on-context-done runtimes); or a host-call environment (envModes)
 	tuple   []int
 	filter  string // "" | "rec-frames-0-1024" | "same-shape-rec-pair" (quick tier only, see sectionsFor)
 	count   int64  // size of the product (before the filter)
@@ -171,7 +179,7 @@ func edgeFrame(l letter) bool { return l.Kind == KRec0 || l.Kind == KRec1024 }
 func (s section) recs() int {
 	n := 0
 	for _, c := range s.tuple {
-		if c == clR0 || c == clR || c == clVr || c == clWr {
+		if c == clR0 || c == clR || c == clVr || c == clWr || c == clEr {
 			n++
 		}
 	}
@@ -188,7 +196,7 @@ func (s section) String() string {
 		n += "(" + s.filter + ")"
 	}
 	if s.ctxMode != "" {
-		n = "ctx-" + s.ctxMode + ":" + n
+		n = strings.TrimPrefix(modeTag(s.ctxMode), "+") + ":" + n
 	}
 	return n
 }
@@ -354,8 +362,41 @@ func sectionsFor(tier string) (secs []section, excludedByCap int64) {
 		}
 		secs = append(secs, s)
 	}
-	// heavy (recursion) sections first so that they are spread over all workers before the light tail
-	sort.SliceStable(secs, func(i, j int) bool { return secs[i].recs() > secs[j].recs() })
+	// host-call environments: every letter alone and followed by a probe of A (direct, host-nested), B and A->B,
+	// in every combination of host function flavour x listeners x snapshotter other than the default one;
+	// thorough adds a core letter before / after every letter.
+	for _, mode := range envModes {
+		et := [][]int{{clE}, {clEr}, {clE, clP}, {clEr, clP}}
+		if tier == "thorough" {
+			et = append(et, []int{clK, clE}, []int{clE, clK})
+		}
+		for _, t := range et {
+			s := section{ctxMode: mode, tuple: t, count: size(t), batch: 1024}
+			if s.recs() > 0 {
+				s.batch = 24
+			}
+			secs = append(secs, s)
+		}
+	}
+	// C06_ONLY=<substring>: diagnostic runs over the sections whose name contains it (always reported as capped)
+	if only := os.Getenv("C06_ONLY"); only != "" {
+		var keep []section
+		for _, s := range secs {
+			if strings.Contains(s.String(), only) {
+				keep = append(keep, s)
+			}
+		}
+		secs = keep
+	}
+	// heavy (recursion) sections first so that they are spread over all workers before the light tail; among
+	// equally heavy sections the small ones first, so that a budget cap on a loaded machine cuts into the largest
+	// sections instead of starving the many small ones
+	sort.SliceStable(secs, func(i, j int) bool {
+		if a, b := secs[i].recs(), secs[j].recs(); a != b {
+			return a > b
+		}
+		return secs[i].count < secs[j].count
+	})
 	return
 }
 
@@ -492,10 +533,7 @@ func runWord(e *engineRT, word []letter, mode string, stats *childStats) (trace 
 		case <-timer.C:
 			childHangs++
 			wordWorker = nil // stuck inside the step; the next word gets a new worker
-			tag := e.name
-			if mode != "" {
-				tag += "+ctx-" + mode
-			}
+			tag := e.name + modeTag(mode)
 			what := "cancel-shared-context-after-last-step"
 			if at < len(word) {
 				what = word[at].String()
@@ -515,10 +553,7 @@ func runWordSteps(e *engineRT, word []letter, mode string, stats *childStats, pr
 	w := newWorld(e)
 	defer w.close()
 	m := &modelW{}
-	tag := e.name
-	if mode != "" {
-		tag += "+ctx-" + mode
-	}
+	tag := e.name + modeTag(mode)
 	var sharedCancel context.CancelFunc
 	if mode == "shared" {
 		w.cur, sharedCancel = context.WithCancel(w.ctx)
@@ -651,7 +686,7 @@ func runBatch(sp *space, sec int, lo, hi int64, pass string) batchResult {
 	mode := sp.secs[sec].ctxMode
 	rts := make([]*engineRT, len(engines))
 	for i, n := range engines {
-		rts[i] = newEngineRT(n, mode != "")
+		rts[i] = newEngineRT(n, mode)
 	}
 	for idx := lo; idx < hi; idx++ {
 		word, ok := sp.secs[sec].word(idx)
@@ -676,7 +711,7 @@ func runBatch(sp *space, sec int, lo, hi int64, pass string) batchResult {
 			}
 			if hung {
 				// the world is stuck with the names A and B registered: abandon this runtime
-				rts[i] = newEngineRT(e.name, e.term)
+				rts[i] = newEngineRT(e.name, e.mode)
 			}
 		}
 		if childHangs >= 2 {
@@ -698,6 +733,13 @@ func runBatch(sp *space, sec int, lo, hi int64, pass string) batchResult {
 		}
 	}
 	for _, e := range rts {
+		if e.lsn != nil {
+			// listener activity of the batch (evidence that the listener paths ran; not a verdict)
+			t := e.name + modeTag(mode) + ":listener:"
+			st.hist[t+"before"] += e.lsn.before.Load()
+			st.hist[t+"after"] += e.lsn.after.Load()
+			st.hist[t+"abort"] += e.lsn.abort.Load()
+		}
 		e.close()
 	}
 	res := batchResult{Words: st.words, Steps: st.steps, Nontrivial: st.nontrivial, Hist: st.hist, Viols: viols}
@@ -769,6 +811,9 @@ func main() {
 	}
 
 	run := fw.Start("C06", "model_checking")
+	if only := os.Getenv("C06_ONLY"); only != "" {
+		run.Capped("diagnostic run restricted to sections containing " + only)
+	}
 	outcomes := fw.NewCounter()
 	samples := fw.NewSampler(16)
 	var words, steps, nontriv int64
@@ -890,12 +935,12 @@ func main() {
 	}
 	run.Finish(fw.Coverage{
 		Evaluations: steps, DistinctNontriv: nontriv, States: words, Transitions: steps, TracesValidated: steps,
-		Rule:    "a state is a history (word) replayed on a fresh world; a transition is one executed step on one engine, compared against the model; a word is non-trivial when a failing step is followed by at least one more step; distinct = distinct (word, context variant) pairs, each run on both engines; the ctx-* sections run on runtimes WithCloseOnContextDone(true)",
+		Rule:    "a state is a history (word) replayed on a fresh world; a transition is one executed step on one engine, compared against the model; a word is non-trivial when a failing step is followed by at least one more step; distinct = distinct (word, context variant) pairs, each run on both engines; the ctx-* sections run on runtimes WithCloseOnContextDone(true); the env-* sections run with another kind of Go host function (api.GoFunc, reflection), with function listeners compiled into every module and / or with experimental.WithSnapshotter on every call context",
 		Samples: samples.List(), Exhaustive: true, Outcomes: outcomes.Map(),
 		Bounds: map[string]any{"full_alphabet": len(fullAlphabet), "core_alphabet": coreNames, "shapes": NShapes, "kinds": NKinds,
 			"class_sizes": map[string]int{"K": len(classes[clK]), "r0": len(classes[clR0]), "N": len(classes[clN]), "R": len(classes[clR]),
-				"Vn": len(classes[clVn]), "Vr": len(classes[clVr]), "Vp": len(classes[clVp]), "T": len(classes[clT]), "O": len(classes[clO]), "S": len(classes[clS]), "F": len(classes[clF]), "X": len(classes[clX]), "P": len(classes[clP]), "W": len(classes[clW]), "Wr": len(classes[clWr])},
-			"context_variants": ctxModes,
+				"Vn": len(classes[clVn]), "Vr": len(classes[clVr]), "Vp": len(classes[clVp]), "T": len(classes[clT]), "O": len(classes[clO]), "S": len(classes[clS]), "F": len(classes[clF]), "X": len(classes[clX]), "P": len(classes[clP]), "W": len(classes[clW]), "Wr": len(classes[clWr]), "E": len(classes[clE]), "Er": len(classes[clEr])},
+			"context_variants": ctxModes, "host_call_environments": envModes,
 			"sections":         secs, "max_recursion_letters_per_word": maxRecPerWord, "engines": engines},
 		Extra: map[string]any{"words_excluded_by_recursion_cap": sp.excludedByCap, "words_run": words,
 			"distinct_model_states": len(states), "batches": nBatches},
@@ -906,6 +951,7 @@ func main() {
 		"runtimes are created per batch of words (24 with recursion, 1024 otherwise; compilation is the dominant cost); instances A and B are fresh for every word",
 		"context variants: a step's context is cancelled after the step returned and after waiting (goroutine count back to its value at world creation, at most 50 ms) for stopped watchers to exit; the wait is never a verdict; kinds that close an instance are not part of the variant alphabet",
 		"a step that has not returned after 30 s is reported as a hang of that step (per-word watchdog in the child); conforming steps take microseconds, a recursion about 0.1 s",
+		"host-call environments: listeners only count (pairing of Before with After/Abort is not judged here); snapshots are enabled and, in snaptaken, taken and dropped by every host function of H, never restored; in the api.GoFunc flavour H.close stays a module function (it needs the calling module) and WASI proc_exit is wazero's own module function in every flavour",
 		"words with a deephost letter run with GODEBUG=clobberfree=1 (use of a freed outgrown stack becomes a crash); all other words run without it",
 	})
 }
@@ -956,7 +1002,7 @@ func replay() {
 	rc := 0
 	var traces [][]stepObs
 	for _, n := range engines {
-		e := newEngineRT(n, doc.Replay.Ctx != "")
+		e := newEngineRT(n, doc.Replay.Ctx)
 		tr, v, _ := runWord(e, word, doc.Replay.Ctx, nil)
 		traces = append(traces, tr)
 		for i, o := range tr {
@@ -994,7 +1040,7 @@ func bench() {
 	}
 	for _, n := range engines {
 		t0 := time.Now()
-		e := newEngineRT(n, os.Getenv("C06_TERM") != "")
+		e := newEngineRT(n, os.Getenv("C06_CTX"))
 		fmt.Printf("%s: runtime+compile %v\n", n, time.Since(t0))
 		t0 = time.Now()
 		for i := 0; i < 200; i++ {
